@@ -16,6 +16,13 @@ Tie (harness/global.cpp, ocaml/driver_global.ml):
       A third stream ("gen gpn") has circuits WITHOUT free capacity (every row covered by fixed obstructions: finding F28);
       they are judged and tied like the others: the model (Spread.circuit_grid_area) follows the repaired code, which gives
       such a circuit the grid of the rows' bounding box with zero capacity.
+      A stream ("gen gpq", case tag GQ) has LEGITIMATE CALLBACKS IN THE MIDDLE OF A RUN: at 1-3 given callback numbers the callback of
+      Circuit::placeGlobal resizes movable cells of positive area (setCellWidth / setCellHeight: unguarded setters, the supported way of
+      inflation; never to or from a zero area; fixed cells untouched), 80 % of the circuits with a fixed cell of non-zero area.  Judged by the
+      statement for the sizes OF THE MOMENT: completes without error, every exposed upper-bound centre inside the rows' bounding box with the
+      placed size the export used (half a unit for an odd one), finite coordinates, frame; the exposed-blend comparison is made on the centres
+      (each exposed corner with the size of its moment); the replica fires the same actions, so that the model ties stay on (export with the
+      sizes at return, spreading with the demands of the moment).
   GR  DensityGrid::fromIspdCircuit alone: margin clipping + bin limits, exact.
   SP  spreadCoordX/Y on dyadic inputs (every binary32 operation exact): exact equality with the model.
   SF  spreadCoordX/Y on NON-dyadic inputs against the Flocq binary32 model coq/SpreadFloat.v evaluated inside Coq by
@@ -60,9 +67,30 @@ def f32(x):
     return Fraction(struct.unpack("<f", struct.pack("<f", x))[0])
 
 
+def gp_body(line):
+    """a "GQ nact (cb kind seed)*nact <payload>" line (stream gpq: the callback resizes cells in mid-run) as the GP line of its payload"""
+    if not line.startswith("GQ "):
+        return line
+    t = line.split()
+    return "GP " + " ".join(t[2 + 3 * int(t[1]):])
+
+
+def gq_actions(line):
+    """[(callback number, kind, seed)] of a GQ line"""
+    t = line.split()
+    return [(int(t[2 + 3 * i]), int(t[3 + 3 * i]), int(t[4 + 3 * i])) for i in range(int(t[1]))] if line.startswith("GQ ") else []
+
+
+def gp_cells(line):
+    """the cells [x, y, w, h, orient, polarity, fixed, obstruction] of a GP / GQ case line"""
+    t = gp_body(line).split()
+    p = 2 + 5 * int(t[1])
+    return [[int(x) for x in t[p + 1 + 8 * i: p + 9 + 8 * i]] for i in range(int(t[p]))]
+
+
 def gp_params(line):
     """the parameter tokens of a GP case line (18, or 21 with the optional rough-legalization knobs), by walking the circuit"""
-    t = line.split()
+    t = gp_body(line).split()
     p = 1
     p += 1 + 5 * int(t[p])
     p += 1 + 8 * int(t[p])
@@ -74,8 +102,8 @@ def gp_params(line):
 
 
 def gp_fixed(line):
-    """the fixed flag of every cell of a GP case line"""
-    t = line.split()
+    """the fixed flag of every cell of a GP / GQ case line"""
+    t = gp_body(line).split()
     p = 2 + 5 * int(t[1])
     return [t[p + 1 + 8 * i + 6] != "0" for i in range(int(t[p]))]
 
@@ -135,8 +163,8 @@ class Eval:
 
     def run(self, lines, timeout=3000):
         # the placement runs are slow (ms..s each): spread them over all cores; the other kinds are cheap
-        slow = [i for i, l in enumerate(lines) if l.startswith("GP ")]
-        fast = [i for i, l in enumerate(lines) if not l.startswith("GP ")]
+        slow = [i for i, l in enumerate(lines) if l.startswith(("GP ", "GQ "))]
+        fast = [i for i, l in enumerate(lines) if not l.startswith(("GP ", "GQ "))]
         impl = [None] * len(lines)
         for idxs, chunk in ((slow, 2), (fast, 300)):
             if idxs:
@@ -174,7 +202,7 @@ class Eval:
                     continue
                 back.append(("GL", idx, (s[0], s[1], int(s[2]))))
                 model_cases.append(s[0])
-            elif tag == "GP":
+            elif tag in ("GP", "GQ"):
                 self.gp(idx, l, r, model_cases, back)
         mres = run_driver(self.driver, model_cases, timeout)
         for (kind, idx, payload), m in zip(back, mres):
@@ -196,6 +224,15 @@ class Eval:
             self.violations.append(("global placement did not complete (crash/abort/timeout)", l, r[:300]))
             return
         status = s[0][3:]
+        gq = l.startswith("GQ ")
+        cnt = [int(x) for x in s[1].split()] if len(s) >= 2 and all(x.lstrip("-").isdigit() for x in s[1].split()) else []
+        fired, ub_after = (cnt[4], cnt[5]) if gq and len(cnt) >= 6 else (0, 0)
+        # stream gpq: the callback legitimately resized movable cells in mid-run (never to or from a zero area); said in the violation text
+        gqnote = ("" if not gq else " [the callback resized movable cells in mid-run through setCellWidth/setCellHeight, never to or from a zero area: "
+                  "%d action(s) fired before the end, (callback number, kind 1 widths 2 heights 3 both 4 same widths again) = %s]"
+                  % (fired, [a[:2] for a in gq_actions(l)]))
+        if gq:
+            self.stats["resize_stream_runs"] = self.stats.get("resize_stream_runs", 0) + 1
         if status == "STOPPED" and len(s) >= 3 and s[2] != "-":
             # the harness stops the run at the first overflowed / non-finite exposed coordinate (a run on NaN may never end)
             self.violations.append(("exposed/returned coordinate overflowed or not finite: " + s[2], l, s[2]))
@@ -204,9 +241,9 @@ class Eval:
             self.violations.append(("global placement did not complete: " + r[-120:], l, r[:300]))
             return
         if status != "OK":
-            self.violations.append(("Circuit::placeGlobal raised an error on a circuit of the domain: " + status, l, status))
+            self.violations.append(("Circuit::placeGlobal raised an error on a circuit of the domain: " + status + gqnote, l, status))
             return
-        ncb, nub, nlb, npu = [int(x) for x in s[1].split()]
+        ncb, nub, nlb, npu = cnt[:4]
         self.stats["gp_callbacks"] += ncb
         self.stats["gp_ub_exposures"] += nub
         self.stats["gp_lb_exposures"] += nlb
@@ -227,7 +264,7 @@ class Eval:
             if nocap and what.startswith("OUTSIDE") and getattr(self, "ctx", None) is not None and self.ctx.known_finding("F28"):
                 self.stats["gp_no_capacity_runs_matched_F28"] = self.stats.get("gp_no_capacity_runs_matched_F28", 0) + 1
             else:
-                self.violations.append((kind + ": " + what, l, what))
+                self.violations.append((kind + ": " + what + gqnote, l, what))
         if frame != 1:
             self.violations.append(("global placement wrote an orientation or moved a fixed cell", l, r[:200]))
         if l in self.coinc:
@@ -242,6 +279,23 @@ class Eval:
             self.bucket(self.dist["rough_coarsening_limit"], "default" if par[20] == "1000" else "other")
         if len(pub) == 4:
             self.cmp_exposed(l, par, ret, pub[1], pub[2], pub[3])
+        elif len(pub) == 6:     # GQ: placed sizes at return / at the last exposed lower bound / at the last exposed upper bound
+            self.cmp_exposed(l, par, ret, pub[1], pub[2], pub[3], pub[4], pub[5])
+        if gq:
+            cl = gp_cells(l)
+            fixed_area = any(c[6] and c[2] > 0 and c[3] > 0 for c in cl)
+            self.stats["resize_actions_fired"] = self.stats.get("resize_actions_fired", 0) + fired
+            self.stats["resize_upper_bounds_after_a_resize"] = self.stats.get("resize_upper_bounds_after_a_resize", 0) + ub_after
+            if fired and ub_after:
+                self.stats["resize_runs_with_update_applied"] = self.stats.get("resize_runs_with_update_applied", 0) + 1
+                if fixed_area:
+                    self.stats["resize_runs_with_update_applied_and_fixed_cell_of_nonzero_area"] = \
+                        self.stats.get("resize_runs_with_update_applied_and_fixed_cell_of_nonzero_area", 0) + 1
+                if len(pub) == 6 and (pub[3] != pub[4] or pub[3] != pub[5] or
+                                      pub[3] != [v for c in cl for v in ((c[3], c[2]) if c[4] in (2, 3, 6, 7) else (c[2], c[3]))]):
+                    self.stats["resize_runs_with_sizes_actually_changed"] = self.stats.get("resize_runs_with_sizes_actually_changed", 0) + 1
+            for a in gq_actions(l):
+                self.bucket(self.dist.setdefault("resize_action_kind", {}), {1: "widths", 2: "heights", 3: "both", 4: "same widths again"}.get(a[1], str(a[1])))
         if self.is_nocap(s):
             # fixed cells / obstructions / the side margin leave no free site in any bin (total capacity <= 0).  The circuit IS in the
             # property's quantifier (a movable cell of positive area, every row >= 4 row-heights wide, "any fixed cells and
@@ -276,7 +330,7 @@ class Eval:
         self.bucket(self.dist["cost_model"], par[3])
         self.bucket(self.dist["cells"], "<=5" if ncells <= 5 else "<=20" if ncells <= 20 else "<=60" if ncells <= 60 else ">60")
         self.bucket(self.dist["ub_exposures"], "<=2" if nub <= 2 else "<=10" if nub <= 10 else "<=50" if nub <= 50 else ">50")
-        if nub >= 2 and len(movable) >= 2:
+        if nub >= 2 and len(movable) >= 2 and (not gq or (fired and ub_after)):
             self.nontrivial.add(l)
         # model cases
         back.append(("GL", idx, (s[6], s[7], None)))
@@ -292,16 +346,21 @@ class Eval:
         self.stats["final_ub_cells_in_bins"] += inbin
 
     # ------------------------------------------------------------ the blend of what was EXPOSED
-    def cmp_exposed(self, l, par, ret, elb, eub, sizes):
+    def cmp_exposed(self, l, par, ret, elb, eub, sizes, sizes_lb=None, sizes_ub=None):
         """returned placement == blend of the last lower-bound and the last upper-bound placements that the callbacks of
         Circuit::placeGlobal EXPOSED (integers L, B = round(lb - size/2), round(ub - size/2) of the binary32 lb, ub).
         With w = (float)exportBlending: returned R = round(fl((1-w) lb + w ub) - size/2), |L + size/2 - lb| <= 1/2,
         |B + size/2 - ub| <= 1/2, so   |R - ((1-w) L + w B)| <= 1/2 + (|1-w| + |w|)/2 + errb
         where errb = 4u(|1-w||lb| + |w||ub|) + 2^-40 (|.|+1) is the binary32 rounding of blendPlacement (the bound used by
-        cmp_export), evaluated with |lb| <= |L + size/2| + 1/2 and |ub| <= |B + size/2| + 1/2."""
+        cmp_export), evaluated with |lb| <= |L + size/2| + 1/2 and |ub| <= |B + size/2| + 1/2.
+        Stream gpq (the callback resizes cells in mid-run): every lower-left corner is taken with the placed size OF ITS MOMENT
+        (sizes = at return, sizes_lb / sizes_ub = at the last exposed lower / upper bound), i.e. the comparison is made on the centres:
+        |(R + sR/2) - ((1-w)(L + sL/2) + w(B + sB/2))| <= the same tolerance; with constant sizes this is the formula above."""
         fixed = gp_fixed(l)
         n = len(fixed)
-        if len(ret) != 2 * n or len(elb) != 2 * n or len(eub) != 2 * n or len(sizes) != 2 * n:
+        sizes_lb = sizes if sizes_lb is None else sizes_lb
+        sizes_ub = sizes if sizes_ub is None else sizes_ub
+        if len(ret) != 2 * n or len(elb) != 2 * n or len(eub) != 2 * n or len(sizes) != 2 * n or len(sizes_lb) != 2 * n or len(sizes_ub) != 2 * n:
             self.differences.append(("Circuit::placeGlobal returned without exposing both a lower-bound and an upper-bound placement "
                                      "(%d / %d coordinates exposed for %d cells): the exposed-blend comparison is impossible"
                                      % (len(elb), len(eub), n), l, ""))
@@ -314,9 +373,10 @@ class Eval:
             for axis in (0, 1):
                 k = 2 * i + axis
                 R, L, B, hs = ret[k], elb[k], eub[k], Fraction(sizes[k], 2)
+                hl, hu = Fraction(sizes_lb[k], 2), Fraction(sizes_ub[k], 2)
                 self.stats["exposed_blend_coordinates_compared"] += 1
-                ideal = (1 - w) * L + w * B
-                errb = (4 * U * (abs(1 - w) * (abs(L + hs) + half) + abs(w) * (abs(B + hs) + half))
+                ideal = (1 - w) * (L + hl) + w * (B + hu) - hs      # == (1-w) L + w B when the sizes are constant
+                errb = (4 * U * (abs(1 - w) * (abs(L + hl) + half) + abs(w) * (abs(B + hu) + half))
                         + Fraction(1, 1 << 40) * (abs(ideal) + hs + 1))
                 tol = half + (abs(1 - w) + abs(w)) / 2 + errb
                 dev = abs(R - ideal)
@@ -616,15 +676,15 @@ def f21_replay(ctx, harness, ev, ftie):
 
 
 def gen_cases(ctx, harness):
-    lines = common.corpus("C06", ("GP ", "GR ", "SP "))
+    lines = common.corpus("C06", ("GP ", "GQ ", "GR ", "SP "))
     ncorpus = len(lines)
     if ctx.quick:
-        plan = [("gp", ctx.seed, 260, 0), ("gpc", ctx.seed + 31, 120, None), ("gpn", ctx.seed + 57, 60, 0), ("gpf", ctx.seed + 83, 50, 0), ("grid", ctx.seed, 3000, None), ("spread", ctx.seed, 3000, None)]
+        plan = [("gp", ctx.seed, 260, 0), ("gpc", ctx.seed + 31, 120, None), ("gpn", ctx.seed + 57, 60, 0), ("gpf", ctx.seed + 83, 50, 0), ("gpq", ctx.seed + 101, 80, 0), ("grid", ctx.seed, 3000, None), ("spread", ctx.seed, 3000, None)]
     else:
         plan = []
         for k in range(3):
             s = ctx.seed + 1000 * k
-            plan += [("gp", s, 1500, 0), ("gp", s + 7, 700, 1), ("gpc", s + 31, 1200, None), ("gpn", s + 57, 500, 0), ("gpn", s + 58, 200, 1), ("gpf", s + 83, 400, 0), ("gpf", s + 84, 150, 1), ("grid", s, 30000, None), ("spread", s, 30000, None)]
+            plan += [("gp", s, 1500, 0), ("gp", s + 7, 700, 1), ("gpc", s + 31, 1200, None), ("gpn", s + 57, 500, 0), ("gpn", s + 58, 200, 1), ("gpf", s + 83, 400, 0), ("gpf", s + 84, 150, 1), ("gpq", s + 101, 800, 0), ("gpq", s + 102, 250, 1), ("grid", s, 30000, None), ("spread", s, 30000, None)]
     coinc = set()
     for what, s, n, lvl in plan:
         new = common.harness_gen(harness, [what, s, n] + ([lvl] if lvl is not None else []))
@@ -681,6 +741,7 @@ def run(ctx):
         ev.differences.append(("composed model GlobalCompose.ub_exposure differs from the exposure of the real run: " + str(x[1])[:300], x[0], str(x[1:])[:600]))
     report(ctx, ev, proof_ok, proof, lines)
     gp = [l for l in lines if l.startswith("GP ")]
+    gqs = [l for l in lines if l.startswith("GQ ")]
     cov = dict(proof)
     cov["composed_model_tie"] = c06_compose.summary(cres)
     cov.update({
@@ -701,9 +762,15 @@ def run(ctx):
                 "(1/2 per std::round of R, L, B weighted by the blend; u = 2^-24); roughLegalization.targetBlending (-0.1..0.89, non-zero in ~65% "
                 "of the runs), quadraticPenalty (0..1) and coarseningLimit (0.5..500) are varied (distribution.rough_*).  "
                 "statistics.coincidence_stream_runs GP runs come from the exact-coincidence stream (30 per net model in the quick tier); an "
-                "exposed coordinate of magnitude >= 2^30 (INT_MIN = converted NaN/inf) stops the run and is a violation with the circuit",
-        "samples": [gp[0][:400] if gp else "", lines[len(lines) // 2][:400], lines[-1][:400]],
-        "corpus_cases": ncorpus, "vm_compute_crosschecked_cases": nvm, "binary32_tie": ftie, "finding_F21_circuit": f21, "kinds": {k: ev.stats.get(k, 0) for k in ("GP", "GR", "SP")},
+                "exposed coordinate of magnitude >= 2^30 (INT_MIN = converted NaN/inf) stops the run and is a violation with the circuit.  "
+                "Stream gpq (80 GQ runs in the quick tier, statistics.resize_*): the callback of Circuit::placeGlobal resizes movable cells of positive area at "
+                "1-3 callback numbers (60 % of the first actions at callbacks 0-2; kinds: widths +-2..3 / heights to 1-3 row heights or +-1 / both / the same "
+                "widths set again; never to or from a zero area, fixed and area-less cells untouched), 80 % of the circuits with a fixed cell of non-zero "
+                "area (obstruction or not); judged on the statement with the placed sizes OF THE MOMENT (completion without error, exposed centres, finite "
+                "coordinates, frame, exposed blend on the centres); a GQ run is non-trivial only if an action fired AND an upper bound was exposed after it "
+                "(the update path GlobalPlacer::updateCellSizes -> HierarchicalDensityPlacement::updateCellDemand was taken)",
+        "samples": [gp[0][:400] if gp else "", gqs[0][:400] if gqs else "", lines[len(lines) // 2][:400], lines[-1][:400]],
+        "corpus_cases": ncorpus, "vm_compute_crosschecked_cases": nvm, "binary32_tie": ftie, "finding_F21_circuit": f21, "kinds": {k: ev.stats.get(k, 0) for k in ("GP", "GQ", "GR", "SP")},
         "domain": "rows >= 4 row heights wide, >= 1 movable cell of positive area (others SKIPped and counted); circuits without free capacity included "
                   "(stream gpn: one macro over all rows, or one obstruction per row leaving at most a sliver), "
                   "CG tolerance 1e-1..1e-6, approximation/cutoff distances >= 0.1, all 4 net models, all 6 cost models, line/diag/square "
@@ -712,7 +779,9 @@ def run(ctx):
                   "zero-area movable cells, fixed cells (also far away / zero size), obstructions, split rows, nets of degree 1-20; "
                   "exact-coincidence stream: even sizes, groups of 3-7 cells connected only to each other with pins at the cell centres (or identical "
                   "cells with identical pin offsets), 2-5 identical cells stacked on one position and tied to one pad pin, nets with 2-5 pins on one "
-                  "spot of one cell (both axes / x only / y only), circuits without any fixed pin, all movable cells starting on one position",
+                  "spot of one cell (both axes / x only / y only), circuits without any fixed pin, all movable cells starting on one position; "
+                  "mid-run resizing stream: the circuits of the main stream plus 1-3 fixed cells of non-zero area (up to 4 x 2 row heights, inside or next to the "
+                  "rows, 60 % obstructions), cell sizes changed by the callback between steps (so that the total movable area drifts by up to a few row heights per action)",
         "slack": "centre vs rows' bounding box, per cell and per axis: exact for an even placed size, 1/2 for an odd one (std::round of a half-integer "
                  "lower-left): the bound PROVED for the composed binary32 model (c06_ub_exposed_centres_inside_rows_bbox) and attained "
                  "(c06_half_unit_slack_attained_in_range); uses of the half unit are counted below",
@@ -742,7 +811,10 @@ def run(ctx):
         "circuits without free capacity (every row covered by obstructions, or only pieces <= 2*margin left) are IN the domain: run, judged and "
         "tied to the model, which follows the repaired code of finding F28 (placement area = bounding box of the rows, every bin capacity 0)",
         "sideMargin is kept at its default (it is not range-checked by the parameter check and not part of the property's quantifier); "
-        "the grid theorem needs margin >= 0"])
+        "the grid theorem needs margin >= 0",
+        "legitimate callbacks in mid-run (stream gpq): the theorems are about ONE exposure / one export with the sizes given, so they cover a run whose "
+        "sizes change between steps; that the run COMPLETES when a callback resizes cells (update of the demands, no change to or from a zero area) is "
+        "validated on the generated runs only"])
 
 
 def replay(ctx, path):
